@@ -19,7 +19,7 @@ DESIGN_REF = 'DESIGN.md section 5 / C13'
 TECHNIQUE = ('breadth-first enumeration of all estimate-call histories up to the depth bound on one real estimator object; differential '
              'oracle (fresh estimator given only the last call), snapshot comparison of earlier models and caller inputs')
 RULE = ('case = (estimator configuration, history of calls); alphabet: 6 (measurement list, total, solver, callback?) letters over (A,B,C); '
-        'configurations: structural zeros off/on; all histories of length <= 3 (quick) / 4 (thorough); states = histories (engine state '
+        'configurations: structural zeros off/on, and warm_start=True (immutability / input / total clauses only); all histories of length <= 3 (quick) / 4 (thorough); states = histories (engine state '
         'digests counted separately), transitions = estimate calls; non-trivial = history length >= 2; distinct = digest of the history. '
         'Warm start: every ordered pair of distinct measurement lists x 3 solvers.')
 LEVEL_TEXT = ('All call sequences up to the depth bound are executed on a single long-lived estimator; after the last call the returned model '
@@ -43,7 +43,7 @@ ALPHABET = [
     ('m2', 100.0, 'MD', False),
     ('m3', 50.0, 'MD', True),
 ]
-ZCONF = {'nozeros': {}, 'zeros': {('A', 'B'): [(0, 1)]}}
+ZCONF = {'nozeros': {}, 'zeros': {('A', 'B'): [(0, 1)]}, 'warm': {}}
 ITERS = 25
 
 
@@ -157,7 +157,7 @@ def run_history(zc, hist, seed, acc=None):
     M.deterministic_eigsh()
     zeros = copy.deepcopy(ZCONF[zc])
     zeros_ref = copy.deepcopy(zeros)
-    eng = FactoredInference(Domain(M.ATTRS3, M.SIZES3), iters=ITERS, structural_zeros=zeros)
+    eng = FactoredInference(Domain(M.ATTRS3, M.SIZES3), iters=ITERS, structural_zeros=zeros, warm_start=(zc == 'warm'))
     fails = []
     returned = []
     cb = Counter()
@@ -181,12 +181,17 @@ def run_history(zc, hist, seed, acc=None):
             fails.append(('callback-leak', 'call %d passed no callback but the callback of an earlier call was invoked %d times' % (step + 1, cb.n - n_before)))
         if use_cb and cb.n == n_before:
             fails.append(('callback-unused', 'call %d passed a callback that was never invoked' % (step + 1)))
+        # (e) a supplied total is honoured by every call of the history, warm start or not
+        if total is not None:
+            sums = [float(np.sum(model.project(t).values)) for t in [('A',), ('B', 'C'), tuple(M.ATTRS3)]]
+            if model.total != total or any(abs(x - total) > 1e-9 * total for x in sums):
+                fails.append(('total-not-honoured', 'call %d (%s) supplied total %r but model.total=%r and answers sum to %r' % (step + 1, ALPHABET[letter], total, model.total, sums)))
         returned.append((model, answers(model)))
         if acc is not None and step == len(hist) - 1:
             acc.digests_states.add(engine_digest(eng))
-    # (a) history freedom for the last call
+    # (a) history freedom for the last call (estimators configured WITHOUT warm start only)
     letter = hist[-1]
-    ref = fresh_answers(zc, letter, seed)
+    ref = fresh_answers(zc, letter, seed) if zc != 'warm' else returned[-1][1]
     d = diff_answers(returned[-1][1], ref, 0 if ALPHABET[letter][2] == 'MD' else 1e-9)
     if d:
         fails.append(('history-dependence', 'after history %r the model of call %r differs from a fresh estimator: %s' % (hist[:-1], ALPHABET[letter], d)))
